@@ -82,3 +82,35 @@ Proof.
   rewrite (history_is_serve_stream resp ops Hh Hnd), Hb. apply pipeline_complete; assumption.
 Qed.
 Print Assumptions wellformed_pipeline_parsed_exactly_under_every_history.
+
+(** ---- the three buffers ---- *)
+From C18 Require Import Buffers.
+
+(** [krun] is the channel with LineReceiver._buffer, the chunked decoder's own buffer and
+    HTTPChannel._dataBuffer kept apart, the decoder's whole loop run inside one rawDataReceived call, and
+    the finish callback's extra bytes travelling _dataBuffer -> requestDone -> setLineMode -> re-entrant
+    dataReceived -> _buffer (Model.v, "Channel3"; it is the machine the correspondence check evaluates).
+    Whenever it completes a history (its loop fuel, 2*len+4, has never been seen to run out; the
+    out-of-fuel case [None] is excluded here), the single-buffer machine produces the same events and
+    ends in the corresponding state ([alpha]: the one buffer = decoder buffer ++ _buffer, or
+    _dataBuffer joined ++ _buffer while a request is handled).  So all theorems above are theorems about
+    the three-buffer channel. *)
+Theorem three_buffer_channel_refines_single_buffer : forall (resp : nat -> bool) (ops : list op) e r,
+  krun resp (Some kinit) ops = Some (e, r) ->
+  run resp start ops = (e, option_map alpha r).
+Proof. exact three_buffers_refine. Qed.
+Print Assumptions three_buffer_channel_refines_single_buffer.
+
+(** in particular: its events do not depend on the segmentation *)
+Theorem three_buffer_channel_segmentation_invariant : forall (resp : nat -> bool) (cs1 cs2 : list bytes) e1 r1 e2 r2,
+  concat cs1 = concat cs2 ->
+  krun resp (Some kinit) (map Deliver cs1) = Some (e1, r1) ->
+  krun resp (Some kinit) (map Deliver cs2) = Some (e2, r2) ->
+  e1 = e2 /\ option_map alpha r1 = option_map alpha r2.
+Proof.
+  intros resp cs1 cs2 e1 r1 e2 r2 Hc H1 H2.
+  apply three_buffers_refine in H1. apply three_buffers_refine in H2.
+  rewrite (http_server_all_chunkings_agree resp cs1 cs2 Hc) in H1. rewrite H1 in H2.
+  inversion H2. split; reflexivity.
+Qed.
+Print Assumptions three_buffer_channel_segmentation_invariant.
